@@ -21,6 +21,7 @@ from rowlib import REQUIRED
 LEVEL = "proof"
 BASIC = ("str", "int", "float", "bool")
 K_PADDED_TYPE = "short-header-with-padded-type-cell"
+K_RAW_BACKSLASH = "backslash-before-ordinary-character-layout-dependent"
 # the characters str.strip() removes (Base/PyStr.v: is_ws)
 PY_WS = [chr(c) for c in list(range(0x9, 0xE)) + list(range(0x1C, 0x21)) + [0x85, 0xA0, 0x1680] + list(range(0x2000, 0x200B))
          + [0x2028, 0x2029, 0x202F, 0x205F, 0x3000]]
@@ -43,6 +44,112 @@ class NoEncoding(Exception):
 
 def esc(s):
     return s.replace("\\", "\\\\").replace("|", "\\|").replace(";", "\\;")
+
+
+def esc_lenient(rng, s, end=False, p_raw=0.8):
+    """another writing of the text s inside a cell that is split: `|` and `;` escaped; a backslash doubled only where the
+    cell syntax needs it — before a backslash or a separator, and at the end of an element that something follows (the
+    backslash would protect the separator).  Before any other character, and at the very end of the cell (end=True), a
+    backslash stands for itself (docs/sheets.md: "`\\` can be used as an escape character"; what a user types who writes
+    the regular expression ^\\d+$ or the path C:\\temp into a `condition` cell)."""
+    out = []
+    for i, c in enumerate(s):
+        if c in "|;":
+            out.append("\\" + c)
+        elif c == "\\":
+            nxt = s[i + 1] if i + 1 < len(s) else None
+            may_raw = (nxt is not None and nxt not in "\\|;") or (nxt is None and end)
+            out.append("\\" if may_raw and rng.random() < p_raw else "\\\\")
+        else:
+            out.append(c)
+    return "".join(out)
+
+
+def canon_esc(text):
+    """a leniently escaped cell text re-written canonically (every backslash that stands for itself doubled); the identity
+    on what esc() writes.  Used to CLASSIFY a failure only."""
+    out, i = [], 0
+    while i < len(text):
+        c = text[i]
+        if c == "\\":
+            if i + 1 < len(text) and text[i + 1] in "\\|;":
+                out.append(text[i:i + 2])
+                i += 2
+                continue
+            out.append("\\\\")
+        else:
+            out.append(c)
+        i += 1
+    return "".join(out)
+
+
+# texts with backslashes in every position the cell syntax distinguishes: before an ordinary character, at the end, at the
+# start, doubled, tripled, before a separator, before whitespace, alone
+RAW_POOL = ["^\\d+$", "\\w+ \\w+", "C:\\temp\\new", "\\", "\\\\", "a\\", "\\a", "\\\\a", "a\\\\", "\\|", "\\;", "a\\|b", "a\\;b", "\\\\|",
+            "\\\\\\", "\\n", "\\ a", "a \\ b", "é\\é", "\\1", "\\\\d", "\\|\\", "|\\", ";\\a", "a|\\b", "\\.\\*", "(\\d{3})-\\d", "\\\n\\", "x\\y\\",
+            "\\\\\\d", "a\\\\|b", "\\type", "\\name"]
+RAW_PIECES = ["\\", "\\", "\\", "\\\\", "\\d", "\\w", "\\|", "\\;", "\\ ", "a", "b", "d", "1", " ", "é", ".", "+", "$", "|", ";", "\n", "C:", "=", ":"]
+
+
+def raw_text(rng, names=()):
+    r = rng.random()
+    if r < 0.4:
+        return rng.choice(RAW_POOL)
+    if r < 0.45 and names:
+        return "\\" + rng.choice(list(names))       # backslash + a field name
+    for _ in range(20):
+        s = "".join(rng.choice(RAW_PIECES) for _ in range(rng.choice([1, 2, 2, 3, 4, 6]))).strip()
+        if s and "\\" in s and rowgen.text_ok(s):
+            return s
+    return "a\\b"
+
+
+def backslash_positions(s):
+    """which of the positions the cell syntax distinguishes occur in s"""
+    out = set()
+    for i, c in enumerate(s):
+        if c != "\\":
+            continue
+        nxt = s[i + 1] if i + 1 < len(s) else None
+        if nxt is None:
+            out.add("at-end")
+        elif nxt == "\\":
+            out.add("before-backslash")
+        elif nxt in "|;":
+            out.add("before-separator")
+        elif nxt.isspace():
+            out.add("before-whitespace")
+        else:
+            out.add("before-ordinary")
+        if i == 0:
+            out.add("at-start")
+    return out
+
+
+def inject_raw(rng, t, v, p=0.6, names=(), only_nondefault=False, d=REQUIRED):
+    """the value with str leaves replaced by raw_text (list elements stay non-blank)"""
+    k = t[0]
+    if k == "str":
+        if only_nondefault and d is not REQUIRED and v == d:
+            return v
+        return raw_text(rng, names) if rng.random() < p else v
+    if k == "list":
+        return [inject_raw(rng, t[1], x, p, names) for x in v]
+    if k == "ulist":
+        return [(raw_text(rng, names) if isinstance(x, str) and rng.random() < p else x) for x in v]
+    if k == "model":
+        return {n: inject_raw(rng, ft, v[n], p, names, only_nondefault, fd) for (n, ft, fd) in t[2]}
+    return v
+
+
+def leaf_texts(v):
+    if isinstance(v, str):
+        return [v]
+    if isinstance(v, list):
+        return [s for x in v for s in leaf_texts(x)]
+    if isinstance(v, dict):
+        return [s for x in v.values() for s in leaf_texts(x)]
+    return []
 
 
 def btext(t, v):
@@ -72,11 +179,34 @@ def is_default(d, v):
 class Enc:
     """random encoder; `tags` records which constructors were used"""
 
-    def __init__(self, rng, unsafe=False):
+    def __init__(self, rng, unsafe=False, lenient=0.0):
         self.rng = rng
         self.tags = set()
         self.unsafe = unsafe      # ignore the keyword/positional side condition (malformed stream)
         self.no_pad = set()       # headers whose raw text is read by the context remap
+        self.lenient = lenient    # probability that a text with a backslash is written with esc_lenient in a packed cell
+        self.raw_log = []         # (lenient writing, canonical writing) of the texts written that way
+        self.packed_cells = set() # the (header, text) cells that the parser splits (written through esc / join)
+
+    def packed(self, header, text):
+        self.packed_cells.add((header, text))
+        return (header, text)
+
+    def esc(self, s, end=False):
+        """the text s as an element of a packed cell.  end: nothing follows it in the cell"""
+        if self.lenient and "\\" in s and self.rng.random() < self.lenient:
+            out = esc_lenient(self.rng, s, end)
+            if out != esc(s):
+                self.tags.add("raw-backslash")
+                self.raw_log.append((out, esc(s)))
+            return out
+        return esc(s)
+
+    def join(self, texts, sep, end=True):
+        """E1's join for one level (trailing separator for a single element).  end: the list ends the cell"""
+        if len(texts) == 1:
+            return self.esc(texts[0]) + sep
+        return sep.join(self.esc(x, end=(end and i == len(texts) - 1)) for i, x in enumerate(texts))
 
     # ---- one value at a header prefix -> list of (header, text)
     def single_cell(self, t, v, prefix):
@@ -116,11 +246,15 @@ class Enc:
         if rowgen.depth(x) > 2 or not rowgen.cell_wf(x):
             raise NoEncoding
         self.tags.add("ulist-packed")
-        return [(prefix, self.join_nested(x))]
+        return [self.packed(prefix, self.join_nested(x))]
 
     def join_nested(self, x):
-        parts = [esc(y) if isinstance(y, str) else join(y, ";") for y in x]
-        return parts[0] + "|" if len(parts) == 1 else "|".join(parts)
+        n = len(x)
+        parts = []
+        for i, y in enumerate(x):
+            last = n > 1 and i == n - 1
+            parts.append(self.esc(y, end=last) if isinstance(y, str) else self.join(y, ";", end=last))
+        return parts[0] + "|" if n == 1 else "|".join(parts)
 
     def list_(self, t, v, prefix):
         et = t[1]
@@ -139,16 +273,16 @@ class Enc:
                 raise NoEncoding
             if len(texts) == 1 and texts[0] != "" and self.rng.random() < 0.4:
                 self.tags.add("list-scalar-cell")
-                return [(prefix, esc(texts[0]))]
+                return [self.packed(prefix, self.esc(texts[0], end=True))]
             self.tags.add("list-packed")
-            return [(prefix, join(texts, self.rng.choice("|;")))]
+            return [self.packed(prefix, self.join(texts, self.rng.choice("|;")))]
         if et[0] == "list" and et[1][0] in BASIC:
             if r < 0.5 and v:
                 x = [[btext(et[1], y) for y in e] for e in v]
                 if not rowgen.cell_wf(x):
                     raise NoEncoding
                 self.tags.add("list2-packed")
-                return [(prefix, self.join_nested(x))]
+                return [self.packed(prefix, self.join_nested(x))]
             out = []
             for i, e in enumerate(v):
                 if not e:
@@ -168,7 +302,7 @@ class Enc:
                 if not all(rows) or not rowgen.cell_wf(rows):
                     raise NoEncoding
                 self.tags.add("list-of-records-packed")
-                return [(prefix, self.join_nested(rows))]
+                return [self.packed(prefix, self.join_nested(rows))]
             out = []
             for i, e in enumerate(v):
                 cols = self.value(et, e, f"{prefix}.{i + 1}")
@@ -200,12 +334,12 @@ class Enc:
             if len(set(texts)) == 1 and (self.rng.random() < 0.6 or n == 1):
                 if not rowgen.text_ok(texts[0]) or (gt[0] == "bool" and False):
                     raise NoEncoding
-                cols.append((h, esc(texts[0])))
+                cols.append(self.packed(h, self.esc(texts[0], end=True)))
                 self.tags.add("star-broadcast")
             else:
                 if not wf_list(texts) or n < 2:
                     raise NoEncoding
-                cols.append((h, "|".join(esc(s) for s in texts)))
+                cols.append(self.packed(h, self.join(texts, "|")))
                 have_len = True
                 self.tags.add("star-list")
         if not have_len or not cols:
@@ -263,8 +397,8 @@ class Enc:
                 raise NoEncoding
             self.tags.add("record-positional")
             if len(texts) == 1 and texts[0] != "" and self.rng.random() < 0.5:
-                return [(prefix, esc(texts[0]))]
-            return [(prefix, join(texts, self.rng.choice("|;")))]
+                return [self.packed(prefix, self.esc(texts[0], end=True))]
+            return [self.packed(prefix, self.join(texts, self.rng.choice("|;")))]
         if prefix and r < 0.5 and nondefault:
             if not all(ft[0] in BASIC for (_, ft, _) in nondefault):
                 raise NoEncoding
@@ -274,8 +408,8 @@ class Enc:
                 raise NoEncoding
             self.tags.add("record-key-value")
             if len(pairs) == 1 and self.rng.random() < 0.5:
-                return [(prefix, esc(pairs[0][0]) + ";" + esc(pairs[0][1]))]      # one bare pair
-            return [(prefix, self.join_nested(pairs))]
+                return [self.packed(prefix, self.esc(pairs[0][0]) + ";" + self.esc(pairs[0][1], end=True))]      # one bare pair
+            return [self.packed(prefix, self.join_nested(pairs))]
         if prefix and r < 0.6 and len(nondefault) >= 2:
             # positional head, key;value tail
             head = []
@@ -292,7 +426,7 @@ class Enc:
             if not self.unsafe and self.reads_as_one_pair(t, x):
                 raise NoEncoding               # side condition of NvModelArgs: as_kwarg (whole cell) = None
             self.tags.add("record-mixed")
-            return [(prefix, self.join_nested(x))]
+            return [self.packed(prefix, self.join_nested(x))]
         # spread
         out = []
         for (n, ft, d) in fields:
@@ -332,8 +466,11 @@ def permute(rng, cells, group=top_field):
     return out
 
 
-def encode_row(rng, t, v, unsafe=False):
-    e = Enc(rng, unsafe)
+def encode_row(rng, t, v, unsafe=False, lenient=0.0, log=None):
+    """log: a set that receives the (header, text) cells of this encoding that the parser splits"""
+    e = Enc(rng, unsafe, lenient)
+    if log is not None:
+        e.packed_cells = log
     cells = e.value(t, v, "")
     heads = [h for h, _ in cells]
     if len(set(heads)) != len(heads):
@@ -354,9 +491,11 @@ def flow_group(cx):
     return g
 
 
-def encode_flow(rng, desc, cx, v):
+def encode_flow(rng, desc, cx, v, lenient=0.0, log=None):
     """one encoding of a flow row: short or long headers per field"""
-    e = Enc(rng)
+    e = Enc(rng, lenient=lenient)
+    if log is not None:
+        e.packed_cells = log
     e.no_pad.add(cx["sw_column"])
     f2h = desc[4]
     short_of = {}
@@ -413,12 +552,12 @@ def encode_edges(rng, e, ft, edges, short_of):
             if len(set(texts)) == 1 and (n == 1 or rng.random() < 0.6):
                 if not rowgen.text_ok(texts[0]):
                     raise NoEncoding
-                cols.append((h, esc(texts[0])))
+                cols.append(e.packed(h, e.esc(texts[0], end=True)))
                 e.tags.add("star-broadcast")
             else:
                 if n < 2 or not wf_list(texts):
                     raise NoEncoding
-                cols.append((h, "|".join(esc(s) for s in texts)))
+                cols.append(e.packed(h, e.join(texts, "|")))
                 have_len = True
                 e.tags.add("star-list")
         if not have_len or not cols:
@@ -439,11 +578,11 @@ def encode_edges(rng, e, ft, edges, short_of):
 STAR_TEXTS = ["a", "b", "c", "x y", "7", "type", "name", "value", "é", "a;b", "p|q", "has_any_word", "@x"]
 
 
-def _nondefault(rng, ft, d):
+def _nondefault(rng, ft, d, texts=None):
     k = ft[0]
     if k == "str":
         for _ in range(20):
-            x = rng.choice(STAR_TEXTS)
+            x = rng.choice(texts or STAR_TEXTS)
             if x != d:
                 return x
         return "zz"
@@ -462,28 +601,29 @@ def _star_kinds(rng, nf):
     return kinds
 
 
-def _star_values(rng, specs, n):
+def _star_values(rng, specs, n, texts=None):
     """specs: [(key, ft, default, kind)] -> {key: (kind, k, [value per element])}"""
     out = {}
     for (g, ft, d, kind) in specs:
         if kind == "long":
-            out[g] = (kind, n, [_nondefault(rng, ft, d) for _ in range(n)])
+            out[g] = (kind, n, [_nondefault(rng, ft, d, texts) for _ in range(n)])
         elif kind == "short":
             k = rng.randint(1, n - 1)
-            out[g] = (kind, k, [_nondefault(rng, ft, d) for _ in range(k)] + [d] * (n - k))
+            out[g] = (kind, k, [_nondefault(rng, ft, d, texts) for _ in range(k)] + [d] * (n - k))
         elif kind == "scalar":
-            x = _nondefault(rng, ft, d)
+            x = _nondefault(rng, ft, d, texts)
             out[g] = (kind, n, [x] * n)
         else:
             out[g] = (kind, 0, [d] * n)
     return out
 
 
-def _star_cell(ft, kind, k, vals):
+def _star_cell(ft, kind, k, vals, enc=None):
+    """enc: an Enc whose esc / join write the texts (lenient escaping); None: canonical"""
     texts = [btext(ft, x) for x in vals[:k]]
     if kind == "scalar":
-        return esc(texts[0])
-    return join(texts, "|")            # one element: trailing separator, still a list
+        return enc.esc(texts[0], end=True) if enc else esc(texts[0])
+    return enc.join(texts, "|") if enc else join(texts, "|")            # one element: trailing separator, still a list
 
 
 def _column_orders(rng, cols, lens):
@@ -509,8 +649,9 @@ def _interleave(rng, main, extra):
     return out
 
 
-def gen_star_group(rng):
-    """R{id: str, p: List[E] = [], z: str = ""}, E with 3..5 basic fields with defaults; a value of n elements
+def gen_star_group(rng, texts=None, enc=None):
+    """(texts: the pool the str values are drawn from; enc: see _star_cell)
+    R{id: str, p: List[E] = [], z: str = ""}, E with 3..5 basic fields with defaults; a value of n elements
     and its layouts: `p.*.g` columns in several orders (sibling lists of UNEQUAL lengths, scalars broadcasting a
     non-default value) and the spread layout `p.i.g`"""
     nf = rng.randint(3, 5)
@@ -525,13 +666,13 @@ def gen_star_group(rng):
         specs.append((g, ft, d, kind))
     E = ("model", "E", fields, {}, {})
     R = ("model", "R", [("id", rowlib.STR, REQUIRED), ("p", ("list", E), []), ("z", rowlib.STR, "")], {}, {})
-    vals = _star_values(rng, specs, n)
+    vals = _star_values(rng, specs, n, texts)
     value = {"id": "r1", "p": [{g: vals[g][2][i] for (g, _, _) in fields} for i in range(n)], "z": ""}
     star_cols, lens = [], []
     for (g, ft, d, kind) in specs:
         if kind == "absent":
             continue
-        star_cols.append((f"p.*.{g}", _star_cell(ft, kind, vals[g][1], vals[g][2])))
+        star_cols.append((f"p.*.{g}", _star_cell(ft, kind, vals[g][1], vals[g][2], enc)))
         lens.append(1 if kind == "scalar" else vals[g][1])
     spread = []
     for i in range(n):
@@ -548,12 +689,14 @@ def gen_star_group(rng):
 # long form is seen
 FLOW_SHORT_NAMES = {"from_": ["from"], "value": ["condition", "condition_value"], "variable": ["condition_var", "condition_variable"],
                     "type": ["condition_type"], "name": ["condition_name"]}
+FLOW_SHORT_ALL = {h for hs in FLOW_SHORT_NAMES.values() for h in hs}
 FLOW_STAR_FIELDS = [("from_", "edges.*.from_"), ("value", "edges.*.condition.value"), ("variable", "edges.*.condition.variable"),
                     ("type", "edges.*.condition.type"), ("name", "edges.*.condition.name")]
 
 
-def gen_flow_star_group(rng, desc, cx):
-    """a flow row whose edges are written with the short headers from/condition/condition_var/condition_type/
+def gen_flow_star_group(rng, desc, cx, texts=None, enc=None):
+    """(texts, enc: as gen_star_group)
+    a flow row whose edges are written with the short headers from/condition/condition_var/condition_type/
     condition_name (or their long `edges.*...` forms): sibling lists of unequal lengths + scalar broadcasts,
     and the same row with indexed columns edges.i...."""
     short_of = {}
@@ -562,7 +705,7 @@ def gen_flow_star_group(rng, desc, cx):
     kinds = _star_kinds(rng, len(FLOW_STAR_FIELDS))
     n = rng.randint(2, 4)
     specs = [(g, rowlib.STR, "", kind) for (g, _), kind in zip(FLOW_STAR_FIELDS, kinds)]
-    vals = _star_values(rng, specs, n)
+    vals = _star_values(rng, specs, n, texts)
     edges = [{"from_": vals["from_"][2][i],
               "condition": {g: vals[g][2][i] for g in ("value", "variable", "type", "name")}} for i in range(n)]
     rtype = "send_message"
@@ -579,7 +722,7 @@ def gen_flow_star_group(rng, desc, cx):
         if g == "from_":
             names.append("edges.*.from")
         h = rng.choice(names) if rng.random() < 0.3 else rng.choice(FLOW_SHORT_NAMES[g])
-        star_cols.append((h, _star_cell(rowlib.STR, kind, vals[g][1], vals[g][2])))
+        star_cols.append((h, _star_cell(rowlib.STR, kind, vals[g][1], vals[g][2], enc)))
         lens.append(1 if kind == "scalar" else vals[g][1])
     spread = []
     for i in range(n):
@@ -643,6 +786,7 @@ def run(ctx):
              "constructors": {}, "model_unsupported": 0, "values_equal_to_field_name": 0}
     nontrivial = set()
     samples = []
+    raw_samples = []
     batch = []
 
     def add_tags(tags):
@@ -674,22 +818,140 @@ def run(ctx):
         batch = []
 
     # ------------------------------------------------ generic family
-    for i in range(n_pairs):
+    # second pass ("raw"): the str leaves carry backslashes in every position the cell syntax distinguishes (RAW_POOL /
+    # raw_text) and the packed cells are written with esc_lenient — a backslash doubled only where the syntax needs it
+    n_raw = (8000 if thorough else 500) * ctx.scale
+    rstats = {"pairs": 0, "flow_pairs": 0, "star_groups": 0, "values_with_backslash": 0, "encodings_with_a_raw_backslash": 0,
+              "pairs_raw_vs_unsplit_or_canonical": 0, "backslash_positions": {}, "raw_backslash_in_constructor": {},
+              "values_without_two_encodings": 0}
+    stats["raw_backslash"] = rstats
+
+    def note_raw(val, tg1, tg2, c1, c2):
+        texts = [x for x in leaf_texts(val) if "\\" in x]
+        if texts:
+            rstats["values_with_backslash"] += 1
+        for x in texts:
+            for pos in backslash_positions(x):
+                rstats["backslash_positions"][pos] = rstats["backslash_positions"].get(pos, 0) + 1
+        for tg in (tg1, tg2):
+            if "raw-backslash" in tg:
+                rstats["encodings_with_a_raw_backslash"] += 1
+                for other in tg:
+                    if other not in ("raw-backslash", "permuted", "row", "padded-basic"):
+                        key = other.split(":")[0]
+                        rstats["raw_backslash_in_constructor"][key] = rstats["raw_backslash_in_constructor"].get(key, 0) + 1
+        if ("raw-backslash" in tg1) != ("raw-backslash" in tg2):
+            rstats["pairs_raw_vs_unsplit_or_canonical"] += 1
+
+    def raw_class(key, parser, c1, c2, packed, val):
+        """causal classification: the class is the backslash written as itself when the same two layouts with the cells the
+        parser splits re-written canonically (canon_esc: every such backslash doubled) DO parse alike and to the value.
+        packed: the set of those (header, text) cells, or a predicate on the header"""
+        if packed is None:
+            return key
+        is_packed = (lambda h, x: packed(h)) if callable(packed) else (lambda h, x: (h, x) in packed)
+        k1 = [(h, canon_esc(x) if is_packed(h, x) else x) for (h, x) in c1]
+        k2 = [(h, canon_esc(x) if is_packed(h, x) else x) for (h, x) in c2]
+        if (k1, k2) == (list(c1), list(c2)):
+            return key
+        q1, q2 = impl_parse(parser, k1), impl_parse(parser, k2)
+        if q1[0] == "ok" and q2[0] == "ok" and _deep_eq(q1[1], q2[1]) and _deep_eq(q1[1], val):
+            return K_RAW_BACKSLASH
+        return key
+
+    def directed_raw():
+        """every text of RAW_POOL in a fixed small model and in a flow row with a `has_pattern` condition: the spread / long-header
+        layout (unsplit cells: the text as it is) against the packed / `*` / short-header layouts with the text written with
+        as few backslashes as the cell syntax allows"""
+        class Min:                      # an rng whose random() is always 0: esc_lenient doubles a backslash only where it must
+            @staticmethod
+            def random():
+                return 0.0
+        STR = rowlib.STR
+        AB = _m("AB", [("a", STR, ""), ("b", STR, "")])
+        R = _m("R", [("id", STR, REQUIRED), ("f", ("list", STR), []), ("m", AB, {"a": "", "b": ""})])
+        rowlib.clear_cache()
+        gparser = RowParser(rowlib.py_type(R), CellParser())
+        fparser = RowParser(FlowRowModel, CellParser())
+        fdesc = flow_desc()
+        n = 0
+        for x in RAW_POOL:
+            mid, end = esc_lenient(Min, x, end=False), esc_lenient(Min, x, end=True)
+            val = {"id": "r", "f": [x, "z"], "m": {"a": x, "b": "k"}}
+            spread = [("id", "r"), ("f.1", x), ("f.2", "z"), ("m.a", x), ("m.b", "k")]
+            val_r = {"id": "r", "f": ["z", x], "m": {"a": x, "b": "k"}}
+            spread_r = [("id", "r"), ("f.1", "z"), ("f.2", x), ("m.a", x), ("m.b", "k")]
+            val1 = {"id": "r", "f": [x], "m": {"a": x, "b": ""}}
+            spread1 = [("id", "r"), ("f.1", x), ("m.a", x)]
+            cases = [("list `;`, record positional", [("id", "r"), ("f", mid + ";z"), ("m", mid + "|k")], val, spread),
+                     ("list `|` (text last), record key;value (text last)", [("id", "r"), ("f", "z|" + end), ("m", "b;k|a;" + end)], val_r, spread_r),
+                     ("`*` column, record key;value", [("id", "r"), ("f.*", mid + "|z"), ("m", "a;" + mid + "|b;k")], val, spread),
+                     ("one-element list as a bare cell, record as one bare cell", [("id", "r"), ("f", end), ("m", end)], val1, spread1),
+                     ("one-element list with its separator, one bare pair", [("id", "r"), ("f", mid + ";"), ("m", "a;" + end)], val1, spread1)]
+            for (what, lay, vv, sp) in cases:
+                ps = impl_parse(gparser, sp)
+                if True:
+                    n += 1
+                    v.coverage["evaluations"] += 1
+                    nontrivial.add(repr((sorted(lay), sorted(sp))))
+                    pl = impl_parse(gparser, lay)
+                    if not (pl[0] == "ok" and ps[0] == "ok" and _deep_eq(pl[1], ps[1]) and _deep_eq(ps[1], vv)):
+                        v.failing_input(raw_class("layout-dependent-parse", gparser, lay, sp, lambda h: "." not in h or "*" in h, vv),
+                                        f"the text {x!r} in two layouts of one value ({what} / spread) parses differently: "
+                                        f"model={_show_ty(R)} value={vv!r} cells1={lay} -> {pl}; cells2={sp} -> {ps}",
+                                        dict(fn="pair", ty=_jsonable_ty(R), value=vv, cells1=lay, cells2=sp))
+                    if m:
+                        rm = rowlib.e_rowmodel(R)
+                        batch.append(([f"(109 1 {rm} {rowlib.e_cells(c)})" for c in (lay, sp)], _show_ty(R), [lay, sp], [pl, ps]))
+            # a flow row: the text as the pattern of a has_pattern condition, as the node the edge comes from, as the variable
+            short = [("row_id", "4"), ("type", "send_message"), ("from", end), ("condition", end), ("condition_var", end),
+                     ("condition_type", "has_pattern"), ("message_text", "A number")]
+            long_ = [("row_id", "4"), ("type", "send_message"), ("edges.1.from", x), ("edges.1.condition.value", x),
+                     ("edges.1.condition.variable", x), ("edges.1.condition.type", "has_pattern"), ("mainarg_message_text", "A number")]
+            two = [("row_id", "4"), ("type", "send_message"), ("from", mid + "|" + end), ("condition", mid + "|" + end),
+                   ("condition_type", "has_pattern"), ("message_text", "A number")]
+            two_long = [("row_id", "4"), ("type", "send_message"), ("edges.1.from", x), ("edges.1.condition.value", x),
+                        ("edges.1.condition.type", "has_pattern"), ("edges.2.from", x), ("edges.2.condition.value", x),
+                        ("edges.2.condition.type", "has_pattern"), ("mainarg_message_text", "A number")]
+            for (what, a, b) in (("one edge", short, long_), ("two edges, `|`-separated", two, two_long)):
+                n += 1
+                v.coverage["evaluations"] += 1
+                nontrivial.add(repr((sorted(a), sorted(b))))
+                pa, pb = impl_parse(fparser, a), impl_parse(fparser, b)
+                good = pa[0] == "ok" and pb[0] == "ok" and _deep_eq(pa[1], pb[1]) and pb[1]["edges"][0]["condition"]["value"] == x \
+                    and pb[1]["edges"][0]["from_"] == x
+                if not good:
+                    v.failing_input(raw_class("flow-layout-dependent-parse", fparser, a, b, lambda h: h in FLOW_SHORT_ALL, pb[1] if pb[0] == "ok" else None),
+                                    f"the text {x!r} under the short headers from/condition/condition_var ({what}) and under the long "
+                                    f"headers edges.i.… parses differently: cells1={a} -> {pa}; cells2={b} -> {pb}",
+                                    dict(fn="flowpair", value=(pb[1] if pb[0] == "ok" else None), cells1=a, cells2=b))
+                if m:
+                    batch.append(([f"(109 2 {rowlib.e_cells(c)})" for c in (a, b)], "FlowRowModel", [a, b], [pa, pb]))
+        flush()
+        rstats["directed_layout_pairs"] = n
+
+    directed_raw()
+    for raw, n_stream in ((False, n_pairs), (True, n_raw)):
+      lenient = 0.85 if raw else 0.0
+      for i in range(n_stream):
         rowlib.clear_cache()
         t = rowgen.gen_model(rng, rng.choice([1, 1, 2, 2, 3]), "M", root=True)
         names = all_names(t)
         val = rowgen.gen_value(rng, t, good=True, names=tuple(names))
+        if raw:
+            val = inject_raw(rng, t, val, 0.6, tuple(names))
         v.coverage["evaluations"] += 1
         encs = []
+        log = set()
         for _ in range(12):
             try:
-                encs.append(encode_row(rng, t, val))
+                encs.append(encode_row(rng, t, val, lenient=lenient, log=log))
             except NoEncoding:
                 continue
             if len(encs) == 2:
                 break
         if len(encs) < 2:
-            stats["values_without_two_encodings"] += 1
+            (rstats if raw else stats)["values_without_two_encodings"] += 1
             continue
         try:
             parser = RowParser(rowlib.py_type(t), CellParser())
@@ -699,16 +961,19 @@ def run(ctx):
         stats["pairs"] += 1
         (c1, tg1), (c2, tg2) = encs
         add_tags(tg1 | tg2)
+        if raw:
+            rstats["pairs"] += 1
+            note_raw(val, tg1, tg2, c1, c2)
         if _has_name_value(t, val):
             stats["values_equal_to_field_name"] += 1
         p1, p2 = impl_parse(parser, c1), impl_parse(parser, c2)
         ok = p1[0] == "ok" and p2[0] == "ok" and _deep_eq(p1[1], p2[1])
         if not ok:
-            v.failing_input("layout-dependent-parse",
+            v.failing_input(raw_class("layout-dependent-parse", parser, c1, c2, log, val),
                             f"two layouts of one value parse differently: model={_show_ty(t)} value={val!r} cells1={c1} -> {p1}; cells2={c2} -> {p2}",
                             dict(fn="pair", ty=_jsonable_ty(t), value=val, cells1=c1, cells2=c2))
         elif not _deep_eq(p1[1], val):
-            v.failing_input("encoding-does-not-parse-to-value",
+            v.failing_input(raw_class("encoding-does-not-parse-to-value", parser, c1, c2, log, val),
                             f"an encoding does not parse to the value it encodes: model={_show_ty(t)} value={val!r} cells={c1} -> {p1}",
                             dict(fn="pair", ty=_jsonable_ty(t), value=val, cells1=c1, cells2=c2))
         if c1 != c2:
@@ -732,6 +997,8 @@ def run(ctx):
                 flush()
         if len(samples) < 4 and c1 != c2 and ("star-list" in tg1 | tg2 or "record-key-value" in tg1 | tg2):
             samples.append(dict(model=_show_ty(t), value=val, cells1=c1, cells2=c2))
+        if raw and len(raw_samples) < 2 and ("raw-backslash" in tg1) != ("raw-backslash" in tg2):
+            raw_samples.append(dict(raw_backslash=True, model=_show_ty(t), value=val, cells1=c1, cells2=c2))
     flush()
 
     # ------------------------------------------------ flow rows: short vs long headers, * columns
@@ -746,14 +1013,23 @@ def run(ctx):
     parser = RowParser(FlowRowModel, CellParser())
     n_flow = (8000 if thorough else 700) * ctx.scale
     fstats = {"pairs": 0, "no_two_encodings": 0, "padded_type_cell": 0, "padded_type_cell_with_short_main_header": 0}
-    for i in range(n_flow):
+    for raw, n_stream in ((False, n_flow), (True, n_raw // 2)):
+      lenient = 0.85 if raw else 0.0
+      for i in range(n_stream):
         val = gen_flow_row(rng, desc, cx, good=True)
+        if raw:
+            # raw backslash texts in the cells a flow author writes patterns / paths / texts into (the row type stays; a field
+            # at its default stays, so that the row keeps its one main argument)
+            rtype = val["type"]
+            val = inject_raw(rng, desc, val, 0.5, only_nondefault=True)
+            val["type"] = rtype
         # nested bare-list content has no spread form
         v.coverage["evaluations"] += 1
         encs = []
+        log = set()
         for _ in range(12):
             try:
-                encs.append(encode_flow(rng, desc, cx, val))
+                encs.append(encode_flow(rng, desc, cx, val, lenient=lenient, log=log))
             except NoEncoding:
                 continue
             if len(encs) == 2:
@@ -763,6 +1039,9 @@ def run(ctx):
             continue
         fstats["pairs"] += 1
         (c1, tg1), (c2, tg2) = encs
+        if raw:
+            rstats["flow_pairs"] += 1
+            note_raw(val, tg1, tg2, c1, c2)
         # whitespace around the row-type cell (stripped by the row parser): one more way of laying out the same row
         u1, u2 = c1, c2
         if rng.random() < 0.3:
@@ -786,11 +1065,13 @@ def run(ctx):
                 q1, q2 = impl_parse(parser, u1), impl_parse(parser, u2)
                 if q1[0] == "ok" and q2[0] == "ok" and _deep_eq(q1[1], q2[1]):
                     key = K_PADDED_TYPE
+            if key != K_PADDED_TYPE:
+                key = raw_class(key, parser, c1, c2, log, val)
             v.failing_input(key,
                             f"two layouts of one flow row parse differently: cells1={c1} -> {p1}; cells2={c2} -> {p2}",
                             dict(fn="flowpair", value=val, cells1=c1, cells2=c2))
         elif not _deep_eq(p1[1], val):
-            v.failing_input("flow-encoding-does-not-parse-to-value",
+            v.failing_input(raw_class("flow-encoding-does-not-parse-to-value", parser, c1, c2, log, val),
                             f"an encoding of a flow row does not parse to it: value={val!r} cells={c1} -> {p1}",
                             dict(fn="flowpair", value=val, cells1=c1, cells2=c2))
         if c1 != c2:
@@ -801,16 +1082,24 @@ def run(ctx):
                 flush()
         if len(samples) < 6 and any(tg.startswith("short") for tg in tg1) and not any(tg.startswith("short") for tg in tg2):
             samples.append(dict(flow_cells_short=c1, flow_cells_long=c2))
+        if raw and len(raw_samples) < 4 and ("raw-backslash" in tg1) != ("raw-backslash" in tg2):
+            raw_samples.append(dict(raw_backslash=True, flow_cells1=c1, flow_cells2=c2))
     flush()
 
     # ------------------------------------------------ directed `*` groups: unequal sibling lengths, scalar broadcast
     dstats = {"generic_groups": 0, "flow_groups": 0, "layouts": 0, "kinds": {}, "n": {}}
     n_star = (4000 if thorough else 250) * ctx.scale
-    for i in range(n_star):
+    raw_star_texts = RAW_POOL + ["a", "x y", "7"]
+    for i in range(n_star + n_raw // 4):
         rowlib.clear_cache()
-        t, val, layouts, spread, kinds, n = gen_star_group(rng)
+        raw = i >= n_star
+        star_enc = Enc(rng, lenient=0.85) if raw else None
+        t, val, layouts, spread, kinds, n = gen_star_group(rng, raw_star_texts if raw else None, star_enc)
         parser = RowParser(rowlib.py_type(t), CellParser())
         dstats["generic_groups"] += 1
+        if raw:
+            rstats["star_groups"] += 1
+            note_raw(val, star_enc.tags | {"star-group"}, set(), None, None)
         dstats["n"][n] = dstats["n"].get(n, 0) + 1
         for kd in kinds:
             dstats["kinds"][kd] = dstats["kinds"].get(kd, 0) + 1
@@ -828,7 +1117,7 @@ def run(ctx):
             impl_list.append(pl)
             nontrivial.add(repr((sorted(lay), sorted(spread))))
             if not (pl[0] == "ok" and ps[0] == "ok" and _deep_eq(pl[1], ps[1])):
-                v.failing_input("star-layout-dependent-parse",
+                v.failing_input(raw_class("star-layout-dependent-parse", parser, lay, spread, (lambda h: "*" in h) if raw else None, val),
                                 f"`*` columns and indexed columns of one value parse differently: model={_show_ty(t)} value={val!r} "
                                 f"star={lay} -> {pl}; spread={spread} -> {ps}",
                                 dict(fn="pair", ty=_jsonable_ty(t), value=val, cells1=lay, cells2=spread))
@@ -842,9 +1131,14 @@ def run(ctx):
             samples.append(dict(star_group=_show_ty(t), kinds=kinds, star_cells=layouts[0], spread_cells=spread))
     flush()
     parser = RowParser(FlowRowModel, CellParser())
-    for i in range(n_star):
-        val, layouts, spread, kinds, n = gen_flow_star_group(rng, desc, cx)
+    for i in range(n_star + n_raw // 4):
+        raw = i >= n_star
+        star_enc = Enc(rng, lenient=0.85) if raw else None
+        val, layouts, spread, kinds, n = gen_flow_star_group(rng, desc, cx, raw_star_texts if raw else None, star_enc)
         dstats["flow_groups"] += 1
+        if raw:
+            rstats["star_groups"] += 1
+            note_raw(val, star_enc.tags | {"flow-star-group"}, set(), None, None)
         for kd in kinds:
             dstats["kinds"][kd] = dstats["kinds"].get(kd, 0) + 1
         ps = impl_parse(parser, spread)
@@ -861,7 +1155,7 @@ def run(ctx):
             impl_list.append(pl)
             nontrivial.add(repr((sorted(lay), sorted(spread))))
             if not (pl[0] == "ok" and ps[0] == "ok" and _deep_eq(pl[1], ps[1])):
-                v.failing_input("flow-star-layout-dependent-parse",
+                v.failing_input(raw_class("flow-star-layout-dependent-parse", parser, lay, spread, (lambda h: "*" in h or h in FLOW_SHORT_ALL) if raw else None, val),
                                 f"short `*` headers and indexed edge columns of one flow row parse differently: star={lay} -> {pl}; "
                                 f"indexed={spread} -> {ps}",
                                 dict(fn="flowpair", value=val, cells1=lay, cells2=spread))
@@ -951,7 +1245,12 @@ def run(ctx):
         "values) / one non-default scalar to broadcast / absent, always at least one of each of the first three, in column "
         "orders longest-first, longest-last, reversed, random, each compared with the indexed layout of the same value; "
         "30% of the generic values additionally get an "
-        "encoding that ignores the keyword/positional side condition (correspondence only); SHEETS: generated sequences of rows "
+        "encoding that ignores the keyword/positional side condition (correspondence only); RAW BACKSLASHES: a second pass of "
+        "every stream above (generic pairs, flow pairs, directed `*` groups) whose str values carry backslashes in every position "
+        "the cell syntax distinguishes (before an ordinary character: ^\\d+$, C:\\temp; at the start / end; doubled, tripled; before "
+        "a separator; before whitespace; alone) and whose packed cells are written, with probability 0.85 per text, with a backslash "
+        "doubled only where the syntax needs it (before a backslash or separator, at the end of an element that something follows) "
+        "— the unsplit cells of the other layout carry the text as it is (distribution: stats.c09.raw_backslash); SHEETS: generated sequences of rows "
         "for one model (generic families, flow rows) on ONE RowParser + CellParser, a second parser for another model beside it: "
         "several layouts of 1-3 values per sheet incl. layouts with a field written as a native {@ @} literal (lists, range(n), "
         "comparisons, ints, strings) or a cell written as a {{ }} template over a shared context object, failing rows, contexts "
@@ -959,7 +1258,7 @@ def run(ctx):
         "isolated process, with the other layouts of its value in the sheet and with the extracted state machine rp_run "
         "(distribution: stats.sheet_histories). non-trivial = distinct pair of different cell lists / distinct set of layouts "
         "of one value within a sheet")
-    v.coverage["samples"] = samples[:10] + sheet_samples
+    v.coverage["samples"] = samples[:10] + raw_samples + sheet_samples
     v.assumptions += [
         "model side: cells contain no Jinja template opener (the model's cell parser is CellParser.parse without templating); "
         "rows with native / templated cells are judged on the implementation only (fresh parser, isolated process, layouts of one value)",
